@@ -32,10 +32,10 @@ SEEDS = [
     'ver:"3.0" l:[1]\na m:{k:1}\nR\n',
     'ver:"2.0"\na\nINF\nNaN\n-INF\nM\nF\n',
 ]
-ALPHA_FULL = list('"\\`\',:;()[]{}<>@\n\r 0aA_-.TNe$') + ['\x00', u'é']
-ALPHA_QUICK = list('"\\`,:()[]{}<>\n 0aN') + [u'é']
+ALPHA_FULL = list('"\\`\',:;()[]{}<>@\n\r 0aA_-.TNe$%#&*') + ['\x00', u'é']
+ALPHA_QUICK = list('"\\`,:()[]{}<>\n 0aN%') + [u'é']
 TOKENS = ['N', '"', ',', '\n', '[', ']', '{', '}', '1', 'a', ':', ' ']
-BROKEN_SCALARS = ['2020-13-01', '2020-02-30', '25:00:00', '12:60:00', '12:00:61', '"\\u00"', '"\\x41"', '"\\', '"abc', 'hex("zz")', 'hex("f")',
+BROKEN_SCALARS = ['%', '%s', '%(x)s', '%d kg', '{0}', '{x}', '100%%', '2020-13-01', '2020-02-30', '25:00:00', '12:60:00', '12:00:61', '"\\u00"', '"\\x41"', '"\\', '"abc', 'hex("zz")', 'hex("f")',
                   'b64("A")', 'b64("====")', '2020-01-01T00:00:00+99:99', '2020-01-01T25:00:00Z', '2020-01-01T00:00:00Z Nowhere', '2020-13-01T00:00:00Z UTC',
                   '1e999', '-1e999kg', 'C(-,1)', 'C(,)', 'C(1,)', 'C(1)', 'C(91,181)', '@', '@a "x', '`abc', '`\\q`', 'Bin(', 'Bin(a', 'Foo(1)', 'Foo("x"', '[1', '[1,,2]',
                   '{a:}', '{A:1}', '{a:1', '<<ver:"3.0"\na\n1\n', '<<>>', '1__', '_1', '--1', '1.', '.5', '1.e3', '1e', '1e+', 'NaNx', 'INFINITY', 'TT', 'NN', 'n',
@@ -246,6 +246,24 @@ def judge_document(hs, text, st, origin, case):
     if outcome == 'other':
         st.fail('exception-other-than-ZincParseException', dict(sig, exc=type(got).__name__), case, {'document': text[:300], 'exc': repr(got)[:300]})
         return 'other:' + type(got).__name__
+    # a document is one unit: the single flag only selects what is RETURNED, it must not change whether the text is accepted
+    if len(split_grids(text)) > 1:
+        signal.alarm(30)
+        try:
+            try:
+                hs.parse(text, mode=hs.MODE_ZINC, single=True)
+                single_outcome = 'grids'
+            except ZincParseException:
+                single_outcome = 'zpe'
+            except Timeout:
+                single_outcome = 'timeout'
+            except BaseException as e:  # noqa
+                single_outcome = 'other:' + type(e).__name__
+        finally:
+            signal.alarm(0)
+        st.count('executions')
+        if single_outcome != outcome and outcome in ('grids', 'zpe'):
+            st.fail('single-flag-changes-the-verdict', dict(sig, single_false=outcome, single_true=single_outcome), case, {'document': text[:300]})
     if outcome == 'zpe':
         if not isinstance(got, ValueError):
             st.fail('ZincParseException-is-not-a-ValueError', sig, case, {})
